@@ -10,7 +10,7 @@ from bfsa.heap import Unsupported
 from bfsa.layout import RField, RLoop, RTell, Writer, extract_readers, is_call_named, meth_call, show_reader, show_segs
 from bfsa.load import AnalysisError, NotConst
 from bfsa.symexec import Exec
-from bfsa.terms import C, NONE, Term, cval, is_const, mk, show
+from bfsa.terms import C, NONE, Term, cval, is_const, mk, show, subterms
 
 from rules.bf3 import SPEC, _self_attr, canon
 
@@ -524,3 +524,58 @@ def single_key_source_rules(prog, chk, pid):
             ok = len(gens) == 1 and "entropy" not in gens[0].d["kwargs"] and len([a for a in gens[0].d["args"] if unsnap(a).op != "class"]) == 0 and not [e for e in rg.events if e.kind in ("gstore", "clsstore", "setitem")]
             why = "generate() does not create a new SigningKey from OS entropy on every call (custom entropy / caching)"
     chk.require(ok, P("ephemeral-fresh"), "register_crypto_plugin.PrivateEccKeyProxy.generate", "SigningKey.generate(curve=CURVE) per call, default entropy", "", "every ephemeral key comes from a new SigningKey.generate call with the library's default entropy source", why)
+
+
+def selector_rules(prog, chk, pid):
+    """AuthBlock.select_encryptor: the caller's filter (which reads attributes only the required encryptor class has, e.g.
+    key_selector) is applied only to an encryptor that passed the isinstance test; the encryptor returned from the loop passed both"""
+    P = lambda s_: "%s.%s" % (pid, s_)
+    fi = prog.method(BEC2 + ".AuthBlock", "select_encryptor")
+    where = "%s:%d" % (fi.file, fi.lineno)
+    ex = Exec(prog, policy=lambda e, f, d: False)
+    res = ex.run(fi)
+    filt = fi.params[3]
+
+    def mentions_filter(t):
+        return any(x.op == "param" and x.args[0] == filt for x in subterms(unsnap(t)))
+
+    def inst_guarded(e, arg):
+        """isinstance(arg, <class>) is known to hold where e happens: an enclosing branch condition (possibly one conjunct of it),
+        or a path fact (early `continue`, left operand of a short-circuit `and`)"""
+        def is_inst(c, pol):
+            c = unsnap(c)
+            if c.op == "isinst" and unsnap(c.args[0]) is unsnap(arg):
+                return pol
+            if c.op == "un" and c.args[0] == "Not":
+                return is_inst(c.args[1], not pol)
+            if c.op == "and" and pol:
+                ops = c.args[0] if len(c.args) == 1 and isinstance(c.args[0], tuple) else c.args
+                return any(is_inst(x, True) for x in ops if isinstance(x, Term))
+            if c.op == "or" and not pol:
+                ops = c.args[0] if len(c.args) == 1 and isinstance(c.args[0], tuple) else c.args
+                return any(is_inst(x, False) for x in ops if isinstance(x, Term))
+            return False
+
+        for f in e.ctx:
+            if f[0] == "if" and is_inst(f[1], f[2]):
+                return True
+            if f[0] in ("andrhs", "and") and len(f) > 1 and isinstance(f[1], Term) and is_inst(f[1], True):
+                return True
+        for (c, pol) in e.facts:
+            if is_inst(c, pol):
+                return True
+        return False
+
+    calls = [e for e in res.events if e.kind == "dyncall" and mentions_filter(e.d["fnterm"])]
+    ok = bool(calls) and all(len(e.d["args"]) == 1 and inst_guarded(e, e.d["args"][0]) for e in calls)
+    chk.require(ok, P("filter-after-type-test"), fi.qualname, "isinstance(encryptor, REQUIRED_ENCRYPTOR_CLS) dominates encryptor_filter(encryptor)", where,
+                "the selector filter is evaluated only for encryptors of the required class (others lack the attributes it reads)",
+                "the filter is applied to an encryptor before / without the isinstance test: a decryptor list that mixes encryptor kinds raises AttributeError out of the reader")
+    rets = [e for e in res.events if e.kind == "return" and e.stack == (fi.qualname,) and any(f[0] == "loop" for f in e.ctx)]
+    okr = bool(rets)
+    for r in rets:
+        v = r.d["value"]
+        okr = okr and unsnap(v).op == "elem" and inst_guarded(r, v) and any(f[0] == "if" and f[2] and mentions_filter(f[1]) for f in r.ctx)
+    chk.require(okr, P("selected-passes-both-tests"), fi.qualname, "return encryptor only if isinstance(...) and (no filter or filter(encryptor))", where,
+                "the first encryptor that is of the required class AND passes the filter is chosen; later candidates are still examined when an earlier one fails the filter",
+                "an encryptor can be returned without passing the class test and the filter")
